@@ -271,7 +271,9 @@ theorem writable_resolve (app : Registry) (adminNs : Ns) {mode : Str} (hd : isDe
     resolve (instrumentReg app adminNs mode false) adminNs (.str ev) args =
       .ok (.fn (.fn adminNs ev) args) := by
   have hin : ev ∈ registered mode false := (registry_mutators mode false ev hev).mpr ⟨hd, rfl⟩
-  simp [resolve, instrumentReg, hashable, inDict, evStr, hin]
+  have hstar : ¬ ev = star := by
+    intro e; subst e; simp [mutators, star] at hev
+  simp [resolve, instrumentReg, hashable, inDict, evStr, hin, hstar]
 
 /-! ### frame: read-only admin traffic does nothing (over `Sio.Server.step`) -/
 
